@@ -35,7 +35,7 @@ theorem accSpec_total (ρ : Rep n R) (a : Aut V) (o : AccOpts) (S : V → Prop)
       intro wl hwl
       obtain ⟨hS, E, hE⟩ := hall wl hwl
       obtain ⟨r, hr⟩ := accSpec_total ρ a o S hadj k wl.1 hS
-      refine ⟨extendPairs o wl.2 E r, ?_⟩
+      refine ⟨extendPairs ρ o wl.2 E r, ?_⟩
       unfold specBody
       rw [hr, hE]
       rfl)
